@@ -106,6 +106,25 @@ Theorem simplify_mem_source_preserves : forall isem prog regions,
 Proof. exact lowering_preserves_value_insn. Qed.
 Print Assumptions simplify_mem_source_preserves.
 
+(* ... and for a memory DESTINATION operand (the store of the result) *)
+Theorem simplify_mem_dest_preserves : forall isem prog regions,
+  (forall a b, sem_val isem ADD [a; b] = Some (u64 (a + b))) ->
+  (forall a b, sem_val isem MUL [a; b] = Some (u64 (a * b))) ->
+  forall m t s f rest cs a o ks kd srcs s1,
+  st_frames s = f :: rest ->
+  fresh t m ->
+  (m_index m <> None -> m_scale m = 1 \/ m_scale m = 2 \/ m_scale m = 4 \/ m_scale m = 8) ->
+  defd_opt (fr_regs f) (m_base m) -> defd_opt (fr_regs f) (m_index m) ->
+  lower m t = (cs, Some a) ->
+  Forall (no_temps (temps_list t)) srcs ->
+  exec_val isem regions s f o ks kd (Omem m) srcs = Ok s1 ->
+  exists s' f' s1',
+    run_chain isem prog regions s f cs = Some (s', f') /\
+    exec_val isem regions s' f' o ks kd (Omem (lowered_memop m a)) srcs = Ok s1' /\
+    sim_result (temps_list t) (length cs) s1 s1'.
+Proof. exact lowering_preserves_store_insn. Qed.
+Print Assumptions simplify_mem_dest_preserves.
+
 (* (the two hypotheses on the instruction semantics are [lowering_insns_meaning] for the integer
    semantics the engines are compared with: C01.InsnSem.mir_val_int) *)
 
